@@ -28,7 +28,9 @@ EXTENDS Integers, Sequences, FiniteSets, TLC
 
 \* ---- label domains and their classification: "ok" | "bad" | "any"
 
-TopicL   == {"c1", "c70", "punct", "len0", "len71", "len140", "len10000", "space", "slash", "ctrl", "utf8", "trailnl", "nul", "utf8_70b",
+\* besides the published limit (70 / 71) the lengths around the one-byte boundary of the composite-key codec (255 / 256 / 257): a limit that moves
+\* must not meet a panic further down
+TopicL   == {"c1", "c70", "punct", "len0", "len71", "len140", "len255", "len256", "len257", "len10000", "space", "slash", "ctrl", "utf8", "trailnl", "nul", "utf8_70b",
              "caret", "bracket", "backslash", "backtick", "at", "brace", "colon", "plus", "upperlower"}
 TopicCls(l)   == IF l \in {"c1", "c70", "punct", "upperlower"} THEN "ok" ELSE "bad"
 MonikerL == TopicL
